@@ -18,7 +18,19 @@ for m in re.finditer(r'^def (SAP_\w+) : Option UInt8 := (none|some (\d+))', lean
 bad = [(k, v, rust.get(k, 'missing')) for k, v in model.items() if rust.get(k, 'missing') != v]
 for k in ('SD1', 'SD2', 'SD3', 'SD4', 'ED', 'SC'):
     if k not in model: bad.append((k, 'missing-in-model', rust.get(k)))
+# DiagnosticFlags (bitflags! in src/dp/peripheral.rs) against the flag masks of Model/Diag.lean and
+# Model/Dp/Peripheral.lean (the masks the C03 / C07 / C17 theorems are about)
+psrc = open('/repo/src/dp/peripheral.rs').read()
+rflags = {m.group(1): int(m.group(2).replace('_', ''), 2)
+          for m in re.finditer(r'^\s*const (\w+)\s*=\s*0b([01_]+);', psrc, re.M)}
+mflags = {}
+for fn in ('lean/ProfiVerif/Model/Diag.lean', 'lean/ProfiVerif/Model/Dp/Peripheral.lean'):
+    for m in re.finditer(r'^def ([A-Z_]+)\s*:\s*UInt16 := (0x[0-9A-Fa-f]+|\d+)', open(os.path.join(ROOT, fn)).read(), re.M):
+        mflags[m.group(1)] = int(m.group(2), 0)
+for k in ('STATION_NOT_READY', 'CONFIGURATION_FAULT', 'PARAMETER_FAULT', 'PARAMETER_REQUIRED', 'PERMANENT_BIT', 'EXT_DIAG'):
+    if k not in mflags: bad.append((k, 'missing-in-model', rflags.get(k)))
+bad += [(k, v, rflags.get(k, 'missing')) for k, v in mflags.items() if rflags.get(k, 'missing') != v]
 if bad:
     for k, a, b in bad: print(f'constant {k}: model={a} source={b}')
     sys.exit(1)
-print(f'consts ok: {len(model)} constants of src/consts.rs equal the model\'s')
+print(f'consts ok: {len(model)} constants of src/consts.rs and {len(mflags)} DiagnosticFlags masks of src/dp/peripheral.rs equal the model\'s')
